@@ -245,6 +245,51 @@ def lu_runner(mode, sizes, env_extra=None, tag='tv'):
                                 'residual bound 2^-26 (|M|max |x|_1 + |b|inf + 1) for the floating-point factorization, exact equality for the rational one']}
     return run
 
+def cont_runner(sizes):
+    """C19: containers and vectors: random histories per family + TLC-generated scripts (bounded exhaustive) for the keyed sets"""
+    def run(ctx):
+        bdir = ctx['build']('rel', ['cont_drv'])
+        mcs = []
+        if os.path.exists(os.path.join(ctx['verif'], 'spec', 'MC_Containers.tla')):
+            mcs.append(dict(name='Containers', cfg='MC_Containers.cfg', tla='MC_Containers.tla', workers=ctx['ncpu'], timeout=900, coverage=True))
+        mcres, viol, infra = _mc_all(ctx, mcs)
+        jobs = []
+        for (fam, nexec, ln, shards) in sizes[ctx['tier']]:
+            for sh in range(shards):
+                jobs.append(((fam, ctx['seed'] * 100003 + sh * 7919 + 1, nexec, ln), os.path.join(ctx['rundir'], 'cont-%s-%d.ndjson' % (fam, sh))))
+        traces = _drive(ctx, bdir, 'cont_drv', jobs)
+        nscripts = 0
+        gen = os.path.join(ctx['verif'], 'spec', 'GEN_Containers.tla')
+        if os.path.exists(gen):
+            scripts = os.path.join(ctx['rundir'], 'scripts.ndjson')
+            env = dict(os.environ); env['SCRIPTS'] = scripts; env['GENLEN'] = str(sizes.get('genlen', {}).get(ctx['tier'], 3))
+            r = subprocess.run([os.path.join(ctx['verif'], 'bin', 'tlcrun'), 'gencont' + os.environ.get('VERIF_RUNTAG', ''), '1', '900', 'GEN_Containers.cfg', 'GEN_Containers.tla'], stdout=subprocess.PIPE, stderr=subprocess.STDOUT, text=True, env=env)
+            import re
+            mm = re.search(r'<<"SCRIPTS", (\d+)>>', r.stdout)
+            if not mm or not os.path.exists(scripts):
+                raise ctx['Infra']('GEN_Containers failed: ' + r.stdout[-1500:])
+            nscripts = int(mm.group(1))
+            ctx['log']('GEN: TLC enumerated %d operation scripts' % nscripts)
+            os.environ['VERIF_SCRIPTS'] = scripts
+            sj = [(('script', sh, ctx['ncpu'], 0), os.path.join(ctx['rundir'], 'cont-script-%d.ndjson' % sh)) for sh in range(ctx['ncpu'])]
+            traces += _drive(ctx, bdir, 'cont_drv', sj)
+        s = ctx['validate_traces']('TV_Containers', traces)
+        ctx['log']('TV: %d events validated, %d violations, %d known, %d infra' % (s['events'], len(s['violations']), len(s['known']), len(s['infra'])))
+        nexe = ctx['count_executions'](traces)
+        cov = {'states': sum(m['distinct'] for m in mcres) + s['events'], 'transitions': sum(m['states'] for m in mcres) + s['events'],
+               'traces_validated_against_impl': nexe, 'samples': _samples(traces), 'evaluations': s['events'],
+               'distinct_nontrivial': _distinct(traces, lambda ev: (ev.get('a'), ev.get('op'), ev.get('types'), ev.get('how'), ev.get('what'), json.dumps(ev.get('st'))[:200]) if ev.get('a') not in ('Reset',) else None),
+               'rule': 'one evaluation = one public container / vector call on a real object whose complete abstract value and lookup answers were checked by TLC against Containers.tla; scripts = every operation sequence of the bounded model enumerated by TLC and replayed on the real keyed sets',
+               'mc_models': mcres, 'tv_events': s['events'], 'executions': nexe, 'scripts_enumerated': nscripts, 'known_findings_hit': len(s['known']), 'exhaustive': False}
+        kn = sorted(set('%s: %s' % (k['id'], k['what']) for k in s['known']))
+        return {'coverage': cov, 'violations': viol + s['violations'], 'known': kn, 'infra': infra + s['infra'],
+                'assumptions': ['vector data are small integers, dyadic fractions (double) or small fractions (Rational): dense reference arithmetic is exact', 'callers respect the documented capacity preconditions (DataSet/ClassSet/IdxSet do not grow by themselves)']}
+    return run
+PLANS['C19'] = {'level': 'model_checking', 'tv_spec': 'TV_Containers',
+                'run': cont_runner({'quick': [('keyed', 40, 40, 8), ('seq', 20, 40, 2), ('bag', 20, 40, 1), ('list', 20, 40, 2), ('map', 20, 40, 1), ('vec', 10, 80, 2)],
+                                    'thorough': [('keyed', 300, 60, 16), ('seq', 100, 60, 8), ('bag', 100, 60, 4), ('list', 100, 60, 8), ('map', 100, 60, 4), ('vec', 50, 200, 8)],
+                                    'genlen': {'quick': 3, 'thorough': 4}})}
+
 def combo_runner(*runs):
     """several runners for one property: coverage numbers add up, lists are concatenated"""
     def run(ctx):
